@@ -51,6 +51,10 @@
          of `Unsubscribe` (`teardown_panic_unsubscribe_witness`); inside `Subscribe` it is recovered
          and surfaces only as a dropped Error (`teardown_panic_dropped_witness`). Excluded by
          `never_escapes` (`srcTd = none`).
+   (vi)  (found while building this slice) `subscriberImpl.NextWithContext` unlocks without `defer`:
+         a hand-written `Observer` whose `Next` panics leaves the producer mutex locked and the
+         recover handler of `SubscribeWithContext` deadlocks on it (`raw_observer_lock_witness`,
+         `raw_observer_partial`).
   Not modelled here: (iv) `Share` over a synchronous source (belongs to the Share model of C11) and
   the subject half of (v) (a teardown panic under a subject's mutex; needs the subject models of C10).
 -/
@@ -58,6 +62,7 @@ import RoProofs.Fault.Next
 import RoProofs.Fault.Kernel
 import RoProofs.Ops.Basic
 import RoGen.Catalogue
+import RoGen.FaultFacts
 namespace Ro.C07
 open Ro Ro.Fault
 
@@ -211,8 +216,14 @@ theorem go_user_code_never_crashes (known : List String) (t : List Facts.OpFact)
 /-- decided on the table regenerated from the source on this run -/
 theorem go_statements_recovered_partial : goOK ["Future"] RoGen.Catalogue.table = true := by decide
 
-/-- full statement `goOK [] RoGen.Catalogue.table = true` fails on the pinned tree: -/
-theorem future_unrecovered_witness : goOK [] RoGen.Catalogue.table = false := by decide
+/-- full statement `goOK [] RoGen.Catalogue.table = true` fails on the pinned tree because of this
+    row (operator_creation.go:456, copied from the table regenerated on the pinned commit; the
+    theorem is about the copy so that repairing `Future` does not break the build — the live row
+    drives the driver's prediction for `op=Go:Future`, which is replayed in a child process) -/
+def futureGoStmtPinned : Facts.GoFact := { line := 456, kind := "go", recovered := false, callsUser := true, emits := true }
+
+theorem future_unrecovered_witness :
+    (!futureGoStmtPinned.callsUser || futureGoStmtPinned.recovered || ([] : List String).contains "Future") = false := by decide
 
 /-- (iii) what that means at run time -/
 theorem future_crash (p : Err) : goBody false (some p) = .crash p := rfl
@@ -293,6 +304,48 @@ theorem teardown_panic_dropped_witness :
     (runScript (mapF dbl) { srcTd := some (.panicErr (.user 5)) } .sync (c 0) [.next (c 1) 1, .complete (c 2)]).2 = [] := by
   decide
 
+/-- (vi) a hand-written `Observer` (no `tryNext` around its code) whose `Next` panics under an
+    observable built with a real mutex: `subscriberImpl.NextWithContext` has no deferred unlock, the
+    recover handler's `ErrorWithContext` locks the same mutex — `Subscribe` never returns -/
+theorem raw_observer_lock_witness :
+    (rawObserverRun false true (at1 0 (.panicErr (.user 5))) 0 [1, 2] {}).hang = true := by decide
+
+/-- … `_partial`: with a deferred unlock, or without a real mutex, or without a panic, it returns -/
+theorem raw_observer_partial (deferred safe : Bool) (fN : Nat → Option Fault.Fault) (vs : List Int)
+    (h : deferred = true ∨ safe = false ∨ ∀ k, panicAt fN k = none) :
+    ∀ (k : Nat) (r : RawRun), r.hang = false → (rawObserverRun deferred safe fN k vs r).hang = false := by
+  induction vs with
+  | nil => intro k r hr; exact hr
+  | cons v vs ih =>
+    intro k r hr
+    unfold rawObserverRun
+    cases hp : panicAt fN k with
+    | none => exact ih _ _ hr
+    | some p =>
+      rcases h with h | h | h
+      · subst h; simpa using hr
+      · subst h; simpa using hr
+      · rw [h k] at hp; cases hp
+
+/-! ## F: deferred unlocks around calls into user code -/
+
+/-- every listed kernel method was recognised and releases its mutex by a `defer` that is in force
+    when it calls out — except the methods listed as known -/
+def deferOK (known : List String) (t : List (String × Bool × Bool)) : Bool :=
+  t.all (fun r => !r.2.2 && (r.2.1 || known.contains r.1))
+
+/-- the model of `subscription.Add` (a teardown added after disposal runs at once and its panic
+    propagates to the recover of `SubscribeWithContext`, after which the subscription is still
+    usable) rests on this fact; without the `defer` the subscription's mutex stays locked for good -/
+theorem add_unlock_deferred :
+    (RoGen.FaultFacts.deferredUnlock.find? (·.1 == "subscriptionImpl.Add")).map (·.2) = some (true, false) := by decide
+
+/-- decided on the facts regenerated on this run; the three `subscriberImpl` methods are the known
+    finding (vi) -/
+theorem deferred_unlock_partial :
+    deferOK ["subscriberImpl.NextWithContext", "subscriberImpl.ErrorWithContext", "subscriberImpl.CompleteWithContext"]
+      RoGen.FaultFacts.deferredUnlock = true := by decide
+
 /-! ## non-vacuity -/
 
 -- the hypotheses of `next_fault` / `map_fault` on a concrete run: invocation 1 of `project` panics
@@ -339,6 +392,10 @@ end Ro.C07
 #print axioms Ro.C07.teardown_panic_escapes_witness
 #print axioms Ro.C07.teardown_panic_unsubscribe_witness
 #print axioms Ro.C07.teardown_panic_dropped_witness
+#print axioms Ro.C07.raw_observer_lock_witness
+#print axioms Ro.C07.raw_observer_partial
+#print axioms Ro.C07.add_unlock_deferred
+#print axioms Ro.C07.deferred_unlock_partial
 #print axioms Ro.Fault.runFinalizers_quiet
 #print axioms Ro.Fault.goBody_bare
 #print axioms Ro.Fault.filterF_forwards
